@@ -45,6 +45,8 @@ def evaluate(e, env):
     if isinstance(e, ast.UnaryOp) and isinstance(e.op, ast.Not): return not evaluate(e.operand, env)
     if isinstance(e, ast.UnaryOp) and isinstance(e.op, ast.USub): return -evaluate(e.operand, env)
     if isinstance(e, ast.BinOp) and isinstance(e.op, ast.Add): return evaluate(e.left, env) + evaluate(e.right, env)
+    if isinstance(e, ast.BinOp) and isinstance(e.op, ast.Sub): return evaluate(e.left, env) - evaluate(e.right, env)
+    if isinstance(e, ast.BinOp) and isinstance(e.op, ast.Mult): return evaluate(e.left, env) * evaluate(e.right, env)
     if isinstance(e, ast.Compare) and len(e.ops) == 1:
         a, b = evaluate(e.left, env), evaluate(e.comparators[0], env); op = e.ops[0]
         if isinstance(op, ast.Eq): return a == b
@@ -74,8 +76,27 @@ def evaluate(e, env):
             if not isinstance(recv, str): raise Unsupported("method call on a non-string")
             return getattr(recv, e.func.attr)(*[evaluate(a, env) for a in e.args])      # Python's own str semantics (trusted base)
         if isinstance(e.func, ast.Name) and e.func.id in ("len", "str", "bool", "list", "tuple", "sorted", "set", "dict") and not e.keywords: return {"len": len, "str": str, "bool": bool, "list": list, "tuple": tuple, "sorted": sorted, "set": set, "dict": dict}[e.func.id](*[evaluate(a, env) for a in e.args])
+        if isinstance(e.func, ast.Attribute) and e.func.attr in ("items", "keys", "values", "get") and not e.keywords:
+            recv = evaluate(e.func.value, env)
+            if isinstance(recv, dict) and not any(isinstance(k_, str) and k_.startswith(".") for k_ in recv):
+                r_ = getattr(recv, e.func.attr)(*[evaluate(a, env) for a in e.args])
+                return list(r_) if e.func.attr != "get" else r_
+        if isinstance(e.func, ast.Name) and e.func.id == "setattr" and len(e.args) == 3:
+            base = evaluate(e.args[0], env)
+            if not isinstance(base, dict): raise Unsupported("setattr on " + type(base).__name__)
+            base["." + evaluate(e.args[1], env)] = evaluate(e.args[2], env); return None
+        if isinstance(e.func, ast.Name) and e.func.id in ("hasattr", "getattr") and len(e.args) in (2, 3):
+            base = evaluate(e.args[0], env); key = "." + evaluate(e.args[1], env)
+            has = isinstance(base, dict) and key in base
+            if e.func.id == "hasattr": return has
+            if has: return base[key]
+            if len(e.args) == 3: return evaluate(e.args[2], env)
+            raise Raised("AttributeError")
+        if isinstance(e.func, ast.Name) and e.func.id == "range" and 1 <= len(e.args) <= 3 and not e.keywords: return list(range(*[evaluate(a, env) for a in e.args]))
         if isinstance(e.func, ast.Name) and e.func.id == "isinstance" and len(e.args) == 2:
             T = {"str": str, "bool": bool, "int": int, "float": float, "list": list, "tuple": tuple, "dict": dict, "set": set}
+            sample_classes = env.get("__classes__") or {}
+            if isinstance(e.args[1], ast.Name) and e.args[1].id in sample_classes: return bool(sample_classes[e.args[1].id](evaluate(e.args[0], env)))
             def ty(x):
                 if isinstance(x, ast.Name) and x.id in T: return T[x.id]
                 if isinstance(x, ast.Tuple): return tuple(ty(y) for y in x.elts)
@@ -126,7 +147,11 @@ def run_block(stmts, env, max_steps=2000):
             v = list(v)
             if len(v) != len(tg.elts): raise Unsupported("unpacking arity")
             for t, x in zip(tg.elts, v): assign(t, x)
-        elif isinstance(tg, ast.Attribute): env[ast.unparse(tg)] = v
+        elif isinstance(tg, ast.Attribute):
+            try: base = evaluate(tg.value, env)
+            except Unsupported: base = None
+            if isinstance(base, dict) and any(isinstance(k_, str) and k_.startswith(".") for k_ in base) and ast.unparse(tg) not in env: base["." + tg.attr] = v      # a sample object
+            else: env[ast.unparse(tg)] = v
         elif isinstance(tg, ast.Subscript) and not isinstance(tg.slice, ast.Slice):
             base = evaluate(tg.value, env)
             if not isinstance(base, (dict, list)): raise Unsupported("item assignment on " + type(base).__name__)
@@ -137,7 +162,7 @@ def run_block(stmts, env, max_steps=2000):
             steps[0] += 1
             if steps[0] > max_steps: raise Unsupported("too many steps")
             if isinstance(s, ast.Expr) and isinstance(s.value, ast.Constant): continue
-            if isinstance(s, ast.Pass): continue
+            if isinstance(s, (ast.Pass, ast.Import, ast.ImportFrom)): continue
             if isinstance(s, ast.Return): raise _Return(evaluate(s.value, env) if s.value is not None else None)
             if isinstance(s, ast.Raise):
                 c = s.exc
@@ -149,8 +174,18 @@ def run_block(stmts, env, max_steps=2000):
             if isinstance(s, ast.Assert):
                 if not evaluate(s.test, env): raise Raised("AssertionError")
                 continue
-            if isinstance(s, ast.AugAssign) and isinstance(s.op, ast.Add) and isinstance(s.target, ast.Name):
-                env[s.target.id] = evaluate(s.target, env) + evaluate(s.value, env); continue
+            if isinstance(s, ast.AugAssign) and isinstance(s.op, (ast.Add, ast.Sub)) and isinstance(s.target, ast.Name):
+                env[s.target.id] = evaluate(s.target, env) + evaluate(s.value, env) if isinstance(s.op, ast.Add) else evaluate(s.target, env) - evaluate(s.value, env); continue
+            if isinstance(s, ast.While):
+                broke = False
+                while evaluate(s.test, env):
+                    steps[0] += 1
+                    if steps[0] > max_steps: raise Unsupported("too many steps")
+                    try: block(s.body)
+                    except _Break: broke = True; break
+                    except _Continue: continue
+                if not broke: block(s.orelse)
+                continue
             if isinstance(s, ast.If):
                 block(s.body if evaluate(s.test, env) else s.orelse); continue
             if isinstance(s, ast.For):
